@@ -75,6 +75,7 @@ type vtCase struct {
 	Batches []vtBatch `json:"batches"`
 	Q       []string  `json:"q"`      // keys to Get / prove after every batch
 	Proofs  int       `json:"proofs"` // 0 none, 1 final root, 2 also every committed root
+	Dump    bool      `json:"dump"`   // dump updatedNodes (key, serialized batch) after every Update
 }
 
 type vtProof struct {
@@ -106,14 +107,15 @@ type vtReopen struct {
 }
 
 type vtObs struct {
-	Roots   []string   `json:"roots"`
-	Fresh   []string   `json:"fresh"` // root of a new trie built from the surviving pairs in one batch
-	Gets    [][]string `json:"gets"`
-	Reopen  []vtReopen `json:"reopen"`
-	Proofs  []vtProof  `json:"proofs"`
-	Err     string     `json:"err"`
-	ToyVec0 string     `json:"toyvec0"`
-	ToyVec1 string     `json:"toyvec1"`
+	Roots   []string      `json:"roots"`
+	Upd     [][][2]string `json:"upd"`   // per batch: updatedNodes as (key, serializeBatch) sorted by key
+	Fresh   []string      `json:"fresh"` // root of a new trie built from the surviving pairs in one batch
+	Gets    [][]string    `json:"gets"`
+	Reopen  []vtReopen    `json:"reopen"`
+	Proofs  []vtProof     `json:"proofs"`
+	Err     string        `json:"err"`
+	ToyVec0 string        `json:"toyvec0"`
+	ToyVec1 string        `json:"toyvec1"`
 }
 
 func hx(b []byte) string { return hex.EncodeToString(b) }
@@ -229,6 +231,14 @@ func vtRunCase(c *vtCase) (o vtObs) {
 		}
 		root = append([]byte{}, root...)
 		o.Roots = append(o.Roots, hx(root))
+		if c.Dump {
+			ents := make([][2]string, 0, len(tr.db.updatedNodes))
+			for k, b := range tr.db.updatedNodes {
+				ents = append(ents, [2]string{hx(k[:]), hx(tr.db.serializeBatch(b))})
+			}
+			sort.Slice(ents, func(i, j int) bool { return ents[i][0] < ents[j][0] })
+			o.Upd = append(o.Upd, ents)
+		}
 		for i, k := range keys {
 			if bytes.Equal(vals[i], DefaultLeaf) {
 				delete(cur, string(k))
